@@ -296,4 +296,9 @@ func TestVerifC14(t *testing.T) {
 		}
 		r.Eval("mixed:" + c.cls)
 	})
+	// package-level state must be what it was
+	if g, _ := toRef(sm2G); !g.Eq(ref.G()) || rawBig(sm2ElementOne).Cmp(bi(1)) != 0 || rawBig(sm2B).Cmp(ref.SM2B) != 0 {
+		r.Violation("package-state-corrupted-after-scalar-multiplications", hk.D{})
+	}
+	r.Eval("package-state-after-workload")
 }
